@@ -70,7 +70,7 @@ type Result struct {
 	ViolCount    int64
 	Inconclusive []string
 	Done         bool
-	Abandoned    bool // the worker stopped after a verdict that leaves it unusable (e.g. goroutines spinning inside the library)
+	Abandoned    bool  // the worker stopped after a verdict that leaves it unusable (e.g. goroutines spinning inside the library)
 	HungAt       int64 // global case number, -1 if none
 	NextStart    int64
 }
